@@ -1,1 +1,89 @@
-// harnesses for module m_glob (included into /repo under cfg(kani))
+// C12: the glob -> POSIX BRE translation table (single atoms); matching itself is onig (C, outside).
+use super::*;
+use crate::find::matchers::entry::verif_kani::{fmt_stub, hae_stub, he_stub, noop_stub};
+
+/// A Pattern that matches nothing (for harnesses that cut Pattern::matches).
+pub fn pattern_none() -> Pattern { Pattern { regex: None } }
+/// Constructor cut used by parser harnesses (onig cannot be compiled by Kani's back end within reach).
+pub fn pattern_new_stub(_pattern: &str, _caseless: bool) -> Pattern { Pattern { regex: None } }
+
+fn bre_stub(_e: &str, _o: RegexOptions) -> Result<Regex, onig::Error> { kani::assume(false); unreachable!() }
+fn special(c: u8) -> bool { c == b'.' || c == b'[' || c == b'\\' || c == b'*' || c == b'^' || c == b'$' }
+
+// @harness props=C12 tier=quick cost=8
+// @exec regex_push_literal
+// @sym one ASCII character (all 128)
+// @bounds single character
+/// A literal is backslash-escaped in the BRE exactly when it is special there: . [ \ * ^ $
+#[kani::proof]
+#[kani::unwind(4)]
+#[kani::stub(alloc::fmt::format, fmt_stub)]
+#[kani::stub(alloc::raw_vec::handle_error, he_stub)]
+#[kani::stub(std::alloc::handle_alloc_error, hae_stub)]
+fn c12_push_literal_escape_set() {
+    let c: u8 = kani::any();
+    kani::assume(c < 0x80);
+    let mut r = String::new();
+    regex_push_literal(&mut r, c as char);
+    let b = r.as_bytes();
+    if special(c) { assert!(b.len() == 2 && b[0] == b'\\' && b[1] == c); } else { assert!(b.len() == 1 && b[0] == c); }
+    kani::cover!(c == b'$'); kani::cover!(c == b'^'); kani::cover!(c == b'a');
+    std::mem::forget(r);
+}
+#[kani::proof]
+#[kani::unwind(4)]
+#[kani::stub(alloc::fmt::format, fmt_stub)]
+#[kani::stub(alloc::raw_vec::handle_error, he_stub)]
+#[kani::stub(std::alloc::handle_alloc_error, hae_stub)]
+fn c12_push_literal_escape_set_canary() {
+    let c: u8 = kani::any();
+    kani::assume(c < 0x80);
+    let mut r = String::new();
+    regex_push_literal(&mut r, c as char);
+    assert!(r.len() == 1 || c == b'.' || c == b'*' || c == b'\\' || c == b'['); // forgets ^ and $: must FAIL
+    std::mem::forget(r);
+}
+
+// @harness props=C12 tier=quick cost=20
+// @exec glob_to_regex, regex_push_literal
+// @sym a one-byte ASCII pattern other than '['
+// @bounds pattern length 1; bracket expressions excluded (they call onig)
+/// One-atom patterns: '?' -> '.', '*' -> '.*', lone '\' -> never matches, literal c -> c escaped iff special.
+#[kani::proof]
+#[kani::unwind(4)]
+#[kani::stub(alloc::fmt::format, fmt_stub)]
+#[kani::stub(alloc::raw_vec::handle_error, he_stub)]
+#[kani::stub(std::alloc::handle_alloc_error, hae_stub)]
+#[kani::stub(std::rt::thread_cleanup, noop_stub)]
+#[kani::stub(parse_bre, bre_stub)]
+fn c12_glob_to_bre_len1() {
+    let p: [u8; 1] = kani::any();
+    kani::assume(p[0] < 0x80 && p[0] != b'[');
+    let pat = unsafe { std::str::from_utf8_unchecked(&p[..]) };
+    match glob_to_regex(pat) {
+        None => assert!(p[0] == b'\\'),
+        Some(re) => {
+            let rb = re.as_bytes();
+            if p[0] == b'?' { assert!(rb.len() == 1 && rb[0] == b'.'); }
+            else if p[0] == b'*' { assert!(rb.len() == 2 && rb[0] == b'.' && rb[1] == b'*'); }
+            else if p[0] == b'\\' { assert!(false); }
+            else if special(p[0]) { assert!(rb.len() == 2 && rb[0] == b'\\' && rb[1] == p[0]); }
+            else { assert!(rb.len() == 1 && rb[0] == p[0]); }
+            kani::cover!(p[0] == b'?'); kani::cover!(p[0] == b'.');
+            std::mem::forget(re);
+        }
+    }
+}
+#[kani::proof]
+#[kani::unwind(4)]
+#[kani::stub(alloc::fmt::format, fmt_stub)]
+#[kani::stub(alloc::raw_vec::handle_error, he_stub)]
+#[kani::stub(std::alloc::handle_alloc_error, hae_stub)]
+#[kani::stub(std::rt::thread_cleanup, noop_stub)]
+#[kani::stub(parse_bre, bre_stub)]
+fn c12_glob_to_bre_len1_canary() {
+    let p: [u8; 1] = kani::any();
+    kani::assume(p[0] < 0x80 && p[0] != b'[');
+    let pat = unsafe { std::str::from_utf8_unchecked(&p[..]) };
+    if let Some(re) = glob_to_regex(pat) { assert!(re.len() == 1); std::mem::forget(re); } // '*' gives two bytes: must FAIL
+}
